@@ -761,6 +761,9 @@ func (e *SpecEnv) applyFunc(fobj *types.Func, args []Val) Val {
 	if uf := e.u.ctx.uninterp[full]; uf {
 		return e.uninterpreted(fobj, args, resTy)
 	}
+	if e.u.ctx.recursive[full] {
+		return e.recCall(fobj, args, resTy)
+	}
 	decl, dpkg := e.u.ctx.funcDecl(fobj)
 	if decl == nil || decl.Body == nil {
 		return e.uninterpreted(fobj, args, resTy)
@@ -1080,4 +1083,111 @@ func (u *Unit) specLoop(f *Frame, st *State, x ast.Expr, fn *ssa.Function, heade
 func (e *SpecEnv) boolOrInt(x ast.Expr) string {
 	v := e.expr(x)
 	return v.T
+}
+
+// ---------------------------------------------------------------------------
+// recursive specification functions (fuel encoding)
+
+type recDef struct {
+	name   string
+	heaps  []string
+	inDef  bool
+	fuel   string // fuel term to use for recursive calls while defining
+	failed bool
+}
+
+func (e *SpecEnv) recCall(fobj *types.Func, args []Val, resTy types.Type) Val {
+	u := e.u
+	full := fobj.FullName()
+	if u.recDefs == nil {
+		u.recDefs = map[string]*recDef{}
+	}
+	rd := u.recDefs[full]
+	if rd == nil {
+		rd = &recDef{name: "rf_" + sanitize(fobj.Name())}
+		u.recDefs[full] = rd
+		e.defineRec(fobj, rd, resTy)
+	}
+	var as []string
+	for _, a := range args {
+		as = append(as, a.T)
+	}
+	if rd.inDef {
+		// recursive call inside the definition: same heap variables, one unit of fuel less
+		var hs []string
+		for _, h := range rd.heaps {
+			hs = append(hs, "hv_"+h)
+		}
+		return Val{T: fmt.Sprintf("(%s %s)", rd.name, strings.Join(append(append([]string{rd.fuel}, hs...), as...), " ")), Ty: resTy}
+	}
+	var hs []string
+	for _, h := range rd.heaps {
+		hs = append(hs, u.heapGet(e.st, h, u.heapTy[h]))
+	}
+	return Val{T: fmt.Sprintf("(%s %s)", rd.name, strings.Join(append(append([]string{"(FS (FS FZ))"}, hs...), as...), " ")), Ty: resTy}
+}
+
+func (e *SpecEnv) defineRec(fobj *types.Func, rd *recDef, resTy types.Type) {
+	u := e.u
+	decl, dpkg := u.ctx.funcDecl(fobj)
+	if decl == nil || decl.Body == nil {
+		e.errf("recursive spec function %s has no body", fobj.Name())
+		rd.failed = true
+		return
+	}
+	sig := fobj.Type().(*types.Signature)
+	var pnames []string
+	var ptys []types.Type
+	if decl.Recv != nil && len(decl.Recv.List) == 1 && len(decl.Recv.List[0].Names) == 1 {
+		pnames = append(pnames, decl.Recv.List[0].Names[0].Name)
+		ptys = append(ptys, sig.Recv().Type())
+	}
+	for i := 0; i < sig.Params().Len(); i++ {
+		pnames = append(pnames, sig.Params().At(i).Name())
+		ptys = append(ptys, sig.Params().At(i).Type())
+	}
+	translate := func() string {
+		sym := &symHeaps{tys: map[string]types.Type{}}
+		for _, h := range rd.heaps {
+			sym.tys[h] = u.heapTy[h]
+			sym.names = append(sym.names, h)
+		}
+		st := &State{sym: sym, cells: map[*cellKey]string{}, heaps: map[string]string{}, globals: map[*ssa.Global]string{}, alloc: "alloc_init", pc: "true", held: map[string]int{}}
+		vars := map[string]Val{}
+		for i, n := range pnames {
+			vars[n] = Val{T: fmt.Sprintf("rv%d_%s", i, sanitize(n)), Ty: ptys[i]}
+		}
+		ne := &SpecEnv{u: u, st: st, old: st, vars: vars, oldVars: vars, pkg: dpkg, fr: e.fr, depth: 1}
+		body := ne.stmts(decl.Body.List, resTy)
+		rd.heaps = sym.names
+		return body.T
+	}
+	rd.inDef = true
+	rd.fuel = "ly"
+	translate() // first pass: discover the heaps read
+	body := translate()
+	rd.inDef = false
+	em := u.em
+	em.pre("(declare-datatypes ((Fuel 0)) (((FZ) (FS (fpred Fuel)))))")
+	var sorts []string
+	var binders []string
+	var argsT []string
+	sorts = append(sorts, "Fuel")
+	for _, h := range rd.heaps {
+		sorts = append(sorts, u.heapSortU(h, u.heapTy[h]))
+		binders = append(binders, fmt.Sprintf("(hv_%s %s)", h, u.heapSortU(h, u.heapTy[h])))
+		argsT = append(argsT, "hv_"+h)
+	}
+	for i, n := range pnames {
+		sorts = append(sorts, em.sortOf(ptys[i]))
+		v := fmt.Sprintf("rv%d_%s", i, sanitize(n))
+		binders = append(binders, fmt.Sprintf("(%s %s)", v, em.sortOf(ptys[i])))
+		argsT = append(argsT, v)
+	}
+	em.pre(fmt.Sprintf("(declare-fun %s (%s) %s)", rd.name, strings.Join(sorts, " "), em.sortOf(resTy)))
+	app := func(fuel string) string {
+		return fmt.Sprintf("(%s %s)", rd.name, strings.Join(append([]string{fuel}, argsT...), " "))
+	}
+	em.pre(fmt.Sprintf("(assert (forall ((ly Fuel) %s) (! (= %s %s) :pattern (%s))))", strings.Join(binders, " "), app("(FS ly)"), body, app("(FS ly)")))
+	em.pre(fmt.Sprintf("(assert (forall ((ly Fuel) %s) (! (= %s %s) :pattern (%s))))", strings.Join(binders, " "), app("(FS ly)"), app("ly"), app("(FS ly)")))
 }
